@@ -10,39 +10,6 @@ open PySMT.Build PySMT.SubstSpec
 
 /-! ## `dict(zip(formals, actuals))` for distinct formals -/
 
-theorem dictInsert_fresh : ∀ (acc : List (Term × Term)) (k v : Term), (∀ kv ∈ acc, kv.1 ≠ k) →
-    dictInsert k v acc = acc ++ [(k, v)]
-  | [], _, _, _ => rfl
-  | (k', v') :: rest, k, v, h => by
-    have hk : k' ≠ k := h (k', v') (by simp)
-    simp only [dictInsert, hk, if_false, List.cons_append]
-    rw [dictInsert_fresh rest k v (fun kv hkv => h kv (List.mem_cons_of_mem _ hkv))]
-
-theorem foldl_dictInsert_nodup : ∀ (ps acc : List (Term × Term)),
-    (ps.map Prod.fst).Nodup → (∀ kv ∈ acc, ∀ kv' ∈ ps, kv.1 ≠ kv'.1) →
-    ps.foldl (fun d kv => dictInsert kv.1 kv.2 d) acc = acc ++ ps
-  | [], acc, _, _ => by simp
-  | (k, v) :: rest, acc, hnd, hdis => by
-    simp only [List.map_cons, List.nodup_cons] at hnd
-    simp only [List.foldl_cons]
-    rw [dictInsert_fresh acc k v (fun kv hkv => hdis kv hkv (k, v) (by simp))]
-    rw [foldl_dictInsert_nodup rest _ hnd.2]
-    · simp
-    · intro kv hkv kv' hkv'
-      rcases List.mem_append.mp hkv with h | h
-      · exact hdis kv h kv' (List.mem_cons_of_mem _ hkv')
-      · simp only [List.mem_singleton] at h
-        subst h
-        intro e
-        apply hnd.1
-        have : k = kv'.1 := e
-        rw [this]; exact List.mem_map_of_mem hkv'
-
-theorem dictOf_nodup (ps : List (Term × Term)) (h : (ps.map Prod.fst).Nodup) : dictOf ps = ps := by
-  unfold dictOf
-  rw [foldl_dictInsert_nodup ps [] h (fun _ hkv => by cases hkv)]
-  simp
-
 theorem sym_injective : ∀ {a b : Sym}, Term.sym a = Term.sym b → a = b := by
   intro a b e
   simp only [Term.sym, Term.node.injEq, Payload.sym.injEq, true_and] at e
@@ -80,10 +47,10 @@ theorem nodup_zip_keys : ∀ (formals : List Sym) (as : List Term), formals.Nodu
     obtain ⟨s', hs', e⟩ := this
     exact h.1 (sym_injective e ▸ hs')
 
-theorem interpret_eq (fi : FunInterp) (as : List Term) (hnd : fi.formals.Nodup) :
-    interpret false fi as = substG false noInterp (SMap.toTMap (fi.formals.zip as)) fi.body := by
+theorem interpret_eq (envMs : Bool) (fi : FunInterp) (as : List Term) (hnd : fi.formals.Nodup) :
+    interpret envMs fi as = substG envMs noInterp (SMap.toTMap (fi.formals.zip as)) fi.body := by
   unfold interpret
-  rw [dictOf_nodup _ (nodup_zip_keys _ _ hnd), zip_sym_toTMap]
+  rw [pyDict_nodup _ (nodup_zip_keys _ _ hnd), zip_sym_toTMap]
 
 /-! ## quantifier-free terms have nothing to capture -/
 
@@ -114,7 +81,7 @@ normal, closed, quantifier-free body of the return type; distinct formal paramet
 structure FiOK (f : Sym) (fi : FunInterp) : Prop where
   wf     : fi.body.wf = true
   norm   : normal fi.body = true
-  arr    : ArrOK fi.body = true
+  arr    : ConstKeys fi.body = true
   ty     : fi.body.typeOf = some f.ret
   sig    : fi.formals.map (·.ret) = f.params
   vars   : ∀ s ∈ fi.formals, s.params = []
@@ -143,7 +110,7 @@ theorem smapOK_zip {f : Sym} {fi : FunInterp} (hfi : FiOK f fi) {as : List Term}
   have h1 := List.of_mem_zip hkv
   exact ⟨hfi.vars _ h1.1, hwf _ h1.2, zip_types _ _ (by rw [hfi.sig]; exact hty) kv hkv⟩
 
-theorem handlerOf_typed {ι : IMap} (hι : IMapOK ι) : HandlerTyped (handlerOf false ι) := by
+theorem handlerOf_typed (envMs : Bool) {ι : IMap} (hι : IMapOK ι) : HandlerTyped (handlerOf envMs ι) := by
   intro f as r hr hwt hty
   unfold handlerOf at hr
   cases hg : ι.get f with
@@ -153,7 +120,7 @@ theorem handlerOf_typed {ι : IMap} (hι : IMapOK ι) : HandlerTyped (handlerOf 
     simp only [Option.map_some, Option.some.injEq] at hr
     subst hr
     have hfi := hι f fi hg
-    rw [interpret_eq fi as hfi.nodup]
+    rw [interpret_eq envMs fi as hfi.nodup]
     have hσ : TyMap (SMap.toTMap (fi.formals.zip as)) := by
       intro kv hkv
       simp only [SMap.toTMap, List.mem_map] at hkv
@@ -162,10 +129,10 @@ theorem handlerOf_typed {ι : IMap} (hι : IMapOK ι) : HandlerTyped (handlerOf 
       refine ⟨hwt _ h1.2, ?_⟩
       rw [zip_types _ _ (by rw [hfi.sig]; exact hty) q hq]
       exact (typeOf_sym_of_ok (hfi.vars _ h1.1)).symm
-    have := substG_type false noInterp_typed fi.body _ hσ (Term.wf_wt _ hfi.wf) hfi.norm hfi.arr
+    have := substG_type envMs noInterp_typed fi.body _ hσ (Term.wf_wt _ hfi.wf) hfi.norm
     exact ⟨this.1, by rw [this.2]; exact hfi.ty⟩
 
-theorem handlerOf_wf {ι : IMap} (hι : IMapOK ι) : HandlerWf (handlerOf false ι) := by
+theorem handlerOf_wf (envMs : Bool) {ι : IMap} (hι : IMapOK ι) : HandlerWf (handlerOf envMs ι) := by
   intro f as r hr hwf hty
   unfold handlerOf at hr
   cases hg : ι.get f with
@@ -175,8 +142,8 @@ theorem handlerOf_wf {ι : IMap} (hι : IMapOK ι) : HandlerWf (handlerOf false 
     simp only [Option.map_some, Option.some.injEq] at hr
     subst hr
     have hfi := hι f fi hg
-    rw [interpret_eq fi as hfi.nodup]
-    exact substG_wf false noInterp_typed noInterp_wf fi.body _ (smapOK_zip hfi hwf hty).wfMap hfi.wf hfi.norm hfi.arr
+    rw [interpret_eq envMs fi as hfi.nodup]
+    exact substG_wf envMs noInterp_typed noInterp_wf fi.body _ (smapOK_zip hfi hwf hty).wfMap hfi.wf hfi.norm
 
 theorem find_defsOf : ∀ (ι : IMap) (f : Sym),
     ((defsOf ι).find? (fun fd => fd.1 == f)).map (·.2) = (ι.get f).map (fun fi => (⟨fi.formals, fi.body⟩ : Def))
@@ -244,7 +211,46 @@ theorem updSyms_zip_bindMany (J K : Interp) : ∀ (formals : List Sym) (as : Lis
         · exact h
       exact updSyms_zip_bindMany J _ ss as hnd.2 (by simpa using hl) y hy'
 
-theorem hsem_handlerOf {ι : IMap} (hι : IMapOKAll ι) : HSem (handlerOf false ι) (defsOf ι) := by
+/-- under an `MSSubstituter` default the instantiation of a body is most-specific: it is safe when no
+formal parameter is of sort Bool (then no actual argument `Not(b)` has a formal parameter as `b`) -/
+def NoBoolFormals (ι : IMap) : Prop := ∀ gf ∈ ι, ∀ s ∈ gf.2.formals, s.ret ≠ .bool
+
+theorem get_mem_imap : ∀ {ι : IMap} {f : Sym} {fi : FunInterp}, ι.get f = some fi → (f, fi) ∈ ι
+  | (g, fi') :: rest, f, fi, hg => by
+    unfold IMap.get at hg
+    by_cases hgf : g = f
+    · subst hgf; simp only [if_true, Option.some.injEq] at hg; subst hg; simp
+    · simp only [hgf, if_false] at hg
+      exact List.mem_cons_of_mem _ (get_mem_imap hg)
+
+theorem msSafe_zip {formals : List Sym} {as : List Term} (hnb : ∀ s ∈ formals, s.ret ≠ .bool)
+    (hwf : ∀ a ∈ as, a.wf = true) : MSSafe (formals.zip as) := by
+  intro kv hkv b pl e
+  by_cases hb : ∃ y, b = Term.sym y
+  · obtain ⟨y, rfl⟩ := hb
+    rw [lookup_toTMap_sym]
+    cases hg : SMap.get (formals.zip as) y with
+    | none => rfl
+    | some u =>
+      exfalso
+      have hy : y ∈ formals := (List.of_mem_zip (get_mem hg)).1
+      have hnwf : (Term.node .not [Term.sym y] pl).wf = true := by rw [← e]; exact hwf _ (List.of_mem_zip hkv).2
+      have h2 := Build.wt_tyNode (Term.wf_wt _ hnwf)
+      simp only [C05T.tyNode, List.map_cons, List.map_nil] at h2
+      have hty : Build.tyOf (Term.sym y) = .bool :=
+        Build.allAre_cons_some (x := Build.tyOf (Term.sym y)) (rest := []) (t := .bool) (by split at h2 <;> simp_all)
+      have hywf : (Term.sym y).wf = true := (Term.wf_node.mp hnwf).1 _ (by simp)
+      have h3 := Build.typeOf_of_tyOf (Term.wf_wt _ hywf) hty
+      have hw := Term.wt_typeOf (op := .symbol) (args := []) (p := .sym y) (Term.wf_wt _ hywf)
+      obtain ⟨_, s, hs, hpar⟩ := typeOfNode_symbol hw
+      have hys : y = s := by simpa using hs
+      subst hys
+      rw [typeOf_sym_of_ok hpar] at h3
+      exact hnb y hy (Option.some.inj h3)
+  · exact lookup_toTMap_ne _ _ (fun x ex => hb ⟨x, ex⟩)
+
+theorem hsem_handlerOf (envMs : Bool) {ι : IMap} (hι : IMapOKAll ι) (henv : envMs = true → NoBoolFormals ι) :
+    HSem (handlerOf envMs ι) (defsOf ι) := by
   constructor
   · intro f as h
     rw [find_defsOf]
@@ -266,9 +272,10 @@ theorem hsem_handlerOf {ι : IMap} (hι : IMapOKAll ι) : HSem (handlerOf false 
         have h2 := congrArg List.length hfi.sig
         simp only [List.length_map] at h1 h2
         omega
-      rw [interpret_eq fi as hfi.nodup]
-      rw [subst_sem false fi.body (fi.formals.zip as) J hJ hfi.wf hfi.norm hfi.arr (smapOK_zip hfi hwf hty)
-        (NoCapture_of_qf _ _ hfi.qf) (fun e => by cases e)]
+      rw [interpret_eq envMs fi as hfi.nodup]
+      rw [subst_sem envMs fi.body (fi.formals.zip as) J hJ hfi.wf hfi.norm hfi.arr (smapOK_zip hfi hwf hty)
+        (NoCapture_of_qf _ _ hfi.qf)
+        (fun e => msSafe_zip (henv e (f, fi) (get_mem_imap hg)) hwf)]
       simp only [updFns, find_defsOf, hg, Option.map_some, List.length_map, hlen, if_true]
       apply coincidence_gen
       refine ⟨?_, ?_, ?_, ?_, ?_⟩
@@ -281,12 +288,46 @@ theorem hsem_handlerOf {ι : IMap} (hι : IMapOKAll ι) : HSem (handlerOf false 
 
 /-- **Interpretation lemma** (together with a symbol-keyed substitution): the value of the result is
 the value of the original with the replaced symbols updated and every interpreted function symbol
-read as its body. `MGSubstituter`, environment default `MGSubstituter`. -/
-theorem subst_interp_sem {ι : IMap} (hι : IMapOKAll ι) (t : Term) (σ : SMap) (I : Interp) (hI : I.WF)
-    (hwf : t.wf = true) (hn : normal t = true) (ha : ArrOK t = true) (hσ : SMapOK σ)
+read as its body. `MGSubstituter`; either environment default. -/
+theorem subst_interp_sem (envMs : Bool) {ι : IMap} (hι : IMapOKAll ι) (henv : envMs = true → NoBoolFormals ι)
+    (t : Term) (σ : SMap) (I : Interp) (hI : I.WF)
+    (hwf : t.wf = true) (hn : normal t = true) (ha : ConstKeys t = true) (hσ : SMapOK σ)
     (hnc : NoCapture σ t = true) :
-    eval I (substG false (handlerOf false ι) σ.toTMap t) = eval (upd I σ (defsOf ι)) t :=
-  substG_sem false (defsClosed_of hι) (handlerOf_typed hι.ok) (handlerOf_wf hι.ok) (hsem_handlerOf hι)
-    (fun e => by cases e) t σ I hI hwf hn ha hσ hnc (fun e => by cases e)
+    eval I (substG false (handlerOf envMs ι) σ.toTMap t) = eval (upd I σ (defsOf ι)) t :=
+  substG_sem false (defsClosed_of hι) (handlerOf_typed envMs hι.ok) (handlerOf_wf envMs hι.ok)
+    (hsem_handlerOf envMs hι henv) (fun e => by cases e) t σ I hI hwf hn ha hσ hnc (fun e => by cases e)
+
+/-- with the empty map the two strategies compute the same term -/
+theorem substG_nil_ms (h : FnHandler) : (t : Term) → substG true h [] t = substG false h [] t
+  | .node op args p => by
+    have hb : bodyMap ([] : TMap) op p = [] := by
+      unfold bodyMap; split <;> rfl
+    have ih : args.map (substG true h []) = args.map (substG false h []) :=
+      List.map_congr_left (fun a _ => substG_nil_ms h a)
+    rw [substG, substG, hb, ih]
+    simp only [lookup, if_true, Bool.false_eq_true, if_false]
+
+theorem NoCapture_nil : (t : Term) → NoCapture [] t = true
+  | .node op args p => by
+    have ih : ∀ a ∈ args, NoCapture [] a = true := fun a _ => NoCapture_nil a
+    rw [NoCapture.eq_def]
+    simp only
+    split
+    · next vs _ =>
+      have : SMap.drop [] vs = ([] : SMap) := rfl
+      simp only [this, List.all_nil, Bool.true_and, List.all_eq_true, List.mem_map, id]
+      rintro _ ⟨a, ha, rfl⟩
+      exact ih a ha
+    · simp only [List.all_eq_true, List.mem_map, id]
+      rintro _ ⟨a, ha, rfl⟩
+      exact ih a ha
+
+/-- the interpretation lemma for `MSSubstituter` (no substitution map) -/
+theorem subst_interp_sem_ms (envMs : Bool) {ι : IMap} (hι : IMapOKAll ι) (henv : envMs = true → NoBoolFormals ι)
+    (t : Term) (I : Interp) (hI : I.WF) (hwf : t.wf = true) (hn : normal t = true) (ha : ConstKeys t = true) :
+    eval I (substG true (handlerOf envMs ι) [] t) = eval (updFns I (defsOf ι)) t := by
+  rw [substG_nil_ms]
+  have hnc : NoCapture [] t = true := NoCapture_nil t
+  exact subst_interp_sem envMs hι henv t [] I hI hwf hn ha (fun _ h => by cases h) hnc
 
 end PySMT.Subst
